@@ -102,7 +102,7 @@ def check(ID, n, checks):
 def keep(ID, n):
     O = '%s/%s_out' % (MUT, ID)
     pid = re.search(r'C\d\d', ID).group(0)
-    num = int(n) + (3 if ID.startswith('r4') else 0)          # round 4 re-visited the properties of round 2: numbered 4..6
+    num = int(n) + (3 if ID.startswith(('r4', 'r6')) else 0)          # rounds 4 and 6 re-visited properties that already had three: numbered 4..6
     D = os.path.join(VERIF, 'seeded', '%s-%s' % (pid, num))
     os.makedirs(D, exist_ok=True)
     shutil.copy('%s/patch%s.diff' % (O, n), D + '/patch.diff')
